@@ -459,6 +459,7 @@ pub fn run(ctx: &mut Ctx) {
     random_domains(ctx);
     match_case(ctx);
     neighbours(ctx);
+    domain_siblings(ctx);
     // requests with unsupported schemes are never matched, whichever constructor built them
     crate::mon::c12::preparsed_schemes(ctx, "C03");
 }
@@ -559,6 +560,80 @@ fn neighbours(ctx: &mut Ctx) {
                     }
                     if !ok {
                         ctx.violation(sub, idx, "C03:option-bleeds-between-neighbouring-rules", d);
+                    }
+                }
+            }
+        }
+    }
+}
+
+/// Rules that are identical except for their `domain=` lists (the shape an optimiser may want to
+/// merge): the engine must apply a rule to a request exactly when one of the siblings applies.
+fn domain_siblings(ctx: &mut Ctx) {
+    let sub = "siblings";
+    let cases = ctx.n(20_000, 1_000_000);
+    for idx in 0..cases {
+        if ctx.stop() {
+            break;
+        }
+        if !ctx.begin_case(sub, idx) {
+            continue;
+        }
+        let seed = ctx.seed;
+        let r = guarded(|| {
+            let mut r = Rng::for_case(seed, "c03.siblings", idx);
+            let n = 2 + r.below(2);
+            let types = r.ps(&["", "script", "image,script", "~image"]);
+            let mut sibs: Vec<(String, Opts)> = vec![];
+            for _ in 0..n {
+                let mut o = Opts::default();
+                for t in types.split(',').filter(|t| !t.is_empty()) {
+                    match t.strip_prefix('~') {
+                        Some(x) => o.neg.push(TYPES.iter().find(|y| **y == x).copied().unwrap_or("image")),
+                        None => o.pos.push(TYPES.iter().find(|y| **y == t).copied().unwrap_or("script")),
+                    }
+                }
+                for _ in 0..1 + r.below(3) {
+                    let d = r.ps(DOMAIN_POOL).to_string();
+                    if r.chance(1, 2) {
+                        if !o.excluded.contains(&d) && !o.included.contains(&d) {
+                            o.excluded.push(d);
+                        }
+                    } else if !o.included.contains(&d) && !o.excluded.contains(&d) {
+                        o.included.push(d);
+                    }
+                }
+                sibs.push((spell_rule(Some(&mut r), Kind::Plain, &o), o));
+            }
+            let lines: Vec<String> = sibs.iter().map(|x| x.0.clone()).collect();
+            let optimize = r.chance(3, 4);
+            let e = Engine::from_rules_parametrised(&lines, Default::default(), true, optimize);
+            let mut out = vec![];
+            for (src, third, shost) in SOURCES {
+                for rt in ["script", "image", "xhr"] {
+                    let url = "https://ads.net/adpath";
+                    let rq = match Request::new(url, src, rt) {
+                        Ok(rq) => rq,
+                        Err(_) => continue,
+                    };
+                    let d = ReqDesc { rtype: rt, scheme: "https", third: *third, source_host: *shost };
+                    let want = sibs.iter().any(|(_, o)| reference(Kind::Plain, o, &d));
+                    let got = e.check_network_request(&rq).matched;
+                    out.push((got == want, want, json!({"rules": lines, "optimize": optimize, "url": url, "source": src, "type": rt, "engine_matched": got, "some_sibling_applies": want})));
+                }
+            }
+            out
+        });
+        match r {
+            Err(sig) => ctx.violation(sub, idx, &format!("C03:{}", sig), json!({})),
+            Ok(v) => {
+                for (ok, want, d) in v {
+                    ctx.eval();
+                    if want {
+                        ctx.nontrivial(fnv(&d.to_string()));
+                    }
+                    if !ok {
+                        ctx.violation(sub, idx, "C03:domain-lists-of-sibling-rules-interfere", d);
                     }
                 }
             }
